@@ -131,7 +131,7 @@ def scenario(sim: Sim) -> None:
             sim.probe("created_1us_after_grid")
         else:
             sim.probe("created_on_grid")
-    nticks = ch.int_between("nticks", 6, 30)
+    nticks = ch.int_between("nticks", 6, sim.scale(30, 80))
     cost = ch.weighted("cost_mode", [2, 1, 2])
     sim.set_cost_mode(cost, ch.draw("cost_seed", 1 << 16) if cost == 2 else 0)
     sim.config.update(variant=variant, period_us=period_us, align=str(align_to), pre_us=pre, nticks=nticks, cost=cost)
